@@ -69,7 +69,7 @@ func c07New(name string) *c07Stack {
 			panic(err)
 		}
 		syscallUmask()
-		src := &rootedFs{afero.NewOsFs(), dir}
+		src := &rootedFs{afero.NewOsFs(), dir, false}
 		return &c07Stack{afero.NewReadOnlyFs(src), src, "/", func() { os.RemoveAll(dir) }, nil}
 	case "ro-bp":
 		m := afero.NewMemMapFs()
@@ -107,7 +107,7 @@ func c07RunImpl(c corr.Case) []string {
 		}
 	}()
 	old := time.Unix(1_600_000_000, 123_456_789) // not a whole second: a rounded time stamp shows
-	srcH := map[int]bool{} // handles opened directly on the source (set-up), not through the wrapper
+	srcH := map[int]bool{}                       // handles opened directly on the source (set-up), not through the wrapper
 	out := make([]string, 0, len(c.Lines))
 	for _, line := range c.Lines {
 		t := strings.Fields(line)
